@@ -413,6 +413,7 @@ func (c *Ctx) checkDoubleChecked(rule string, eng *lockEngine) {
 
 func checkC09(c *Ctx) {
 	c.Explanation = "Decides the schedule-independent conditions for 'concurrent first use creates one object, without races': (O1) double-checked creation - all 7 insertions into the identity-bearing maps of package tally (4 metric kinds, 3 in the registry) are made under the write lock on the miss edge of a same-key re-check performed after that lock was taken, cached-reporter allocations happen on that same edge; the 4 Prometheus vectors use one exclusive section; (O2) field discipline - every access of a guarded field (table in DESIGN appendix A) is made with its mutex held in the required mode, helpers that rely on the caller's lock are verified at every call site, atomic-only fields are accessed only atomically; (O3) every function releases the locks it takes on every path (deferred operations replayed LIFO), and the lock-class order graph is acyclic without re-acquisition of a held class (exception E1 checked)."
+	c.Explanation += " Added by round 8: (O7 handles-stateless) the Report* methods of the reporters' cached handles store only into call-local storage."
 	c.NotDecided = []string{"nothing schedule-specific is run; races inside user-supplied reporters are outside the repository"}
 	c.Assumptions = append(c.Assumptions, "the guarded-field table (DESIGN appendix A) names the lock of each shared field", "Go RWMutex semantics")
 	eng := c.newLockEngine()
